@@ -486,6 +486,33 @@ def h_default_stack(ctx):
     return obs
 
 
+def h_interface_of_subclassed_layer(ctx):
+    """'interfaces ... are found by class': a stack that holds a layer class AND a subclass of it (an application extending a stock layer
+    next to the stock one) hands out, for each class asked for, the interface of the layer of exactly that class"""
+    L, Y = _mods()
+
+    class IfaceX(L.YowLayerInterface):
+        pass
+
+    class X(L.YowLayer):
+        def __init__(self):
+            super(X, self).__init__()
+            self.interface = IfaceX(self)
+
+    class Sub(X):
+        pass
+
+    class Other(L.YowLayer):
+        pass
+    where = ctx.choice("subclass_position", ["below, plain", "above, plain", "below, in a group", "same group, listed first", "same group, listed second"])
+    layers = {"below, plain": (Sub, Other, X), "above, plain": (X, Other, Sub), "below, in a group": ((Sub, Other), X),
+              "same group, listed first": (Other, (Sub, X)), "same group, listed second": (Other, (X, Sub))}[where]
+    st = Y.YowStack(layers, reversed=False)
+    ix, isub = st.getLayerInterface(X), st.getLayerInterface(Sub)
+    return [("asking for the base class yields the base class layer's interface", ix is not None and type(ix._layer) is X),
+            ("asking for the subclass yields the subclass layer's interface", isub is not None and type(isub._layer) is Sub)]
+
+
 def h_legacy_constants(ctx):
     """the plain tuples the package exports (yowsup.stacks.YOWSUP_*): the full stack is the five core layers below ONE parallel group of
     the protocol layers, upper layers first; building it yields that shape"""
@@ -600,6 +627,7 @@ def cases(tier):
     for d in (1, 2, 3) if q else (1, 2, 3, 4):
         cs.append(dict(name="post-construct[depth=%d]" % d, fn=h_post_construct, args=(d, opts), max_paths=200000, timeout_s=600 if q else 3000, weight=4 ** d, keep_samples=4))
     cs.append(dict(name="legacy-constants", fn=h_legacy_constants))
+    cs.append(dict(name="interface-by-class[a layer and a subclass of it in one stack]", fn=h_interface_of_subclassed_layer, keep_samples=6))
     cs.append(dict(name="default-layers", fn=h_default_layers, keep_samples=16))
     cs.append(dict(name="default-stack", fn=h_default_stack, keep_samples=16, max_paths=200))
     cs.append(dict(name="builder[ops<=4]", fn=h_builder, args=(4,), keep_samples=8))
